@@ -107,7 +107,9 @@ func VerifC16_ReadResponseBounded() {
 //     magic first, and runs the connect callback exactly once per established connection -
 //     before the command itself is written; a round trip on a connected peer never dials;
 //   - with a reachable, healthy lookupd and no fault during the round trip it succeeds;
-//   - a PING on a connection the lookupd has dropped fails (dead connections are detected).
+//   - a PING on a connection the lookupd has dropped - hung up (FIN) or reset (RST) - fails
+//     (dead connections are detected), and it leaves the peer disconnected: whichever of the
+//     write or the read fails, the next round trip dials again.
 // ---------------------------------------------------------------------------------------------
 
 func verifLogNop(lvl lg.LogLevel, f string, args ...interface{}) {}
@@ -375,9 +377,17 @@ func verifPeerHTTPAddrs(n *NSQD, lp *lookupPeer) []string {
 //   - with no fault at all, it is in sync at every point of rest without any heartbeat;
 //   - the loop never dies (no panic escapes it; it still answers the exit signal).
 // Symbolically the 15 s ticker is a harness channel; natively the real ticker is awaited.
+// Every wait of these harnesses is bounded (rest / nativeSettle / tick sleep for a fixed time,
+// the symbolic tick is a rendezvous that the executor reports as a deadlock if the loop is gone):
+// a daemon that does not converge ends as a failed "converged:" assertion, not as a hang.
+// Each churn operation runs to completion before nsqd's goroutines move (one canonical
+// schedule, verifrt.Rest); c16_delrace.go explores the interleavings of a topic deletion.
 // ---------------------------------------------------------------------------------------------
 
 var verifTickC chan time.Time
+
+// verifNativeTickBudget: heartbeats a native replay can wait for (see tick).
+const verifNativeTickBudget = 3
 
 func verifNewTickerStub(d time.Duration) *time.Ticker { return &time.Ticker{C: verifTickC} }
 func verifTickerStopStub(t *time.Ticker)              {}
@@ -444,6 +454,14 @@ func (r *verifLoopRun) tick() {
 	if verifrt.Symbolic() {
 		verifTickC <- time.Time{}
 		return
+	}
+	if r.ticks > verifNativeTickBudget {
+		// nsqd's heartbeat ticker is real (15 s) and a native replay runs under go test's 60 s
+		// timeout: a scenario with more heartbeats cannot finish. End it at once (the engine
+		// then turns to the next counterexample of the same assertion) instead of running
+		// into the timeout.
+		println("VERIF-NOTE native replay abandoned: it needs more than", verifNativeTickBudget, "heartbeats of 15 s")
+		verifrt.Done()
 	}
 	time.Sleep(time.Until(r.t0.Add(time.Duration(r.ticks)*15*time.Second + 400*time.Millisecond)))
 }
